@@ -59,6 +59,8 @@ impl Distribution<f32> for StandardNormal {
 
 impl Distribution<f64> for StandardNormal {
     fn sample<R: Rng + ?Sized>(&self, rng: &mut R) -> f64 {
+        #[cfg(rand_distr_verif)]
+        let _g = crate::verif_hooks::PrimGuard::new(1);
         #[inline]
         fn pdf(x: f64) -> f64 {
             (-x * x / 2.0).exp()
